@@ -605,10 +605,12 @@ fn expr_has_side_effects(e: &ast::Expr) -> bool {
                     .unwrap_or(false)
         }
         ast::Expr::FieldAccess { obj, .. } => expr_has_side_effects(obj),
-        ast::Expr::Index { array, index, .. } => {
-            expr_has_side_effects(array) || expr_has_side_effects(index)
-        }
+        ast::Expr::Index { .. } => true,
         ast::Expr::UnaryOp { expr, .. } => expr_has_side_effects(expr),
+        ast::Expr::BinaryOp {
+            op: ast::GoBinaryOp::Div,
+            ..
+        } => true,
         ast::Expr::BinaryOp { lhs, rhs, .. } => {
             expr_has_side_effects(lhs) || expr_has_side_effects(rhs)
         }
